@@ -419,24 +419,26 @@ func overlapNT(cc ConcCase) (sameKey, evictOverlap bool) {
 	return
 }
 
-// runConcReplay is the replay entry: a recorded history is re-decided
-// deterministically; a bare workload (race report) is re-executed many times.
+// runConcReplay is the replay entry.  A concurrent failure depends on the
+// schedule, so the replay answers for the tree it is run against: the recorded
+// workload is re-executed many times (alternating the two execution modes) and
+// every execution is decided afresh.  The recorded history, when there is one,
+// is re-decided too and the verdict printed, but a history that this tree does
+// not produce again is not held against it.
 func runConcReplay(cc ConcCase, o *vk.Obs) string {
-	if len(cc.Hist) > 0 {
-		v, msg := checkHistory(cc, 60*time.Second)
-		if v == vViolation {
-			return msg
-		}
-		return ""
-	}
-	for i := 0; i < 200; i++ {
+	const attempts = 1000
+	for i := 0; i < attempts; i++ {
 		got, dl := execute(cc.W, i%2 == 0)
 		if dl != "" {
 			return dl
 		}
 		if v, msg := checkHistory(got, 20*time.Second); v == vViolation {
-			return msg
+			return fmt.Sprintf("%s (re-execution %d of the recorded workload)", msg, i+1)
 		}
+	}
+	if len(cc.Hist) > 0 {
+		v, msg := checkHistory(cc, 60*time.Second)
+		fmt.Printf("VK-NOTE the recorded workload was re-executed %d times on this tree without a violation; the recorded history itself is decided as: violation=%v %s\n", attempts, v == vViolation, msg)
 	}
 	return ""
 }
